@@ -334,10 +334,12 @@ def build(unit_dir, repo, mode="verify", mutate=None):
         else:
             raise UnitError(f"unknown template directive {d}")
         for sp in specs:
+            if "text" in sp and "file" not in sp:
+                out_lines.extend(sp["text"].split("\n")); continue
             mu = (mutate[1], mutate[2]) if (mutate and mutate[0] == sp["id"]) else None
             ex = extract(repo, sp, contracts, mode, mu)
             used.add(sp["id"])
-            if sp.get("wrap"): out_lines.append(sp["wrap"])
+            if sp.get("wrap"): out_lines.extend(sp["wrap"].split("\n"))
             ex.gen_lo = len(out_lines) + 1
             out_lines.extend(ex.text.split("\n"))
             ex.gen_hi = len(out_lines)
